@@ -295,3 +295,26 @@ fn k_wire_from_iter__stops_pulling_after_the_subscription_ended() {
   assert!(pulls.len() <= 4, "wire.from_iter.stops: the iterator was pulled again after the subscription had ended");
   kani::cover!(true, "harness reaches its end");
 }
+
+// merge whose first input ends the stream synchronously: the inputs wired afterwards must not stay subscribed on behalf of the ended
+// subscriber (a hot input would keep the forwarding observer, and the operators in between their closures, until it next emits)
+#[kani::proof]
+#[kani::unwind(4)]
+fn k_wire_merge__inputs_wired_after_a_synchronous_end_are_not_held() {
+  let sb: &'static Slot<Observer<'static, u8>> = Slot::new();
+  let f_calls = Log::new();
+  let log = Log::new();
+  let id: u8 = kani::any();
+  let _s = observables::error::<u8>(err(id)).merge(&[hot(sb).map(move |x: u8| { f_calls.push(1); x })]).subscribe(
+    move |x: u8| log.push(EV_N | x as u32),
+    move |e: RxError| log.push(EV_E | err_id(&e)),
+    move || log.push(EV_C),
+  );
+  assert!(log.is(&[EV_E | id as u32]), "wire.merge: the error of the first input did not reach the subscriber once, unchanged");
+  if let Some(b) = sb.get() {
+    assert!(!b.is_subscribed(), "wire.merge.late: an input wired after the stream had ended is subscribed");
+    b.next(kani::any());
+  }
+  assert!(f_calls.len() == 0, "wire.merge.late: an operator closure of an input wired after the end was still held and ran");
+  kani::cover!(true, "harness reaches its end");
+}
